@@ -75,8 +75,17 @@ def _worker(item):
         keys = sgzfile.trace_keys()
         win = os.path.join(d, f'win{ci}.sgz')
         paths.append(win)
-        writers.segy_to_sgz(S['sgy'], win, c['rate'], c['bs'], reduce_iops=c['iops'], header_detection=c['mode'], window=(a, b, cc, dd))
+        if c.get('cli'):
+            writers.cli_sgy2sgz(S['sgy'], win, c['rate'], c['bs'], reduce_iops=c['iops'], window=(a, b, cc, dd))
+        else:
+            writers.segy_to_sgz(S['sgy'], win, c['rate'], c['bs'], reduce_iops=c['iops'], header_detection=c['mode'], window=(a, b, cc, dd))
         W = _read_all(win)
+        if c.get('cli'):         # the command line maps its options one to one onto the API: same bytes
+            api = os.path.join(d, f'api{ci}.sgz')
+            paths.append(api)
+            writers.segy_to_sgz(S['sgy'], api, c['rate'], c['bs'], reduce_iops=c['iops'], header_detection='heuristic', window=(a, b, cc, dd))
+            with open(api, 'rb') as f1, open(win, 'rb') as f2:
+                cli_same = f1.read() == f2.read()
         ideal = codec.ideal_volume(S['cube'][a:b, cc:dd], c['rate'])
         # the truth comes from the SOURCE: trace (p, q) of the window is source trace (a + p, c + q)
         T = S['truth']
@@ -87,6 +96,7 @@ def _worker(item):
         out = {'axes': (W['il'], W['xl']) == (S['il'][a:b].tolist(), S['xl'][cc:dd].tolist()) and W['z'] == (np.arange(nz) * 4.0).tolist(),
                'ntr': (W['ntr'], (b - a) * (dd - cc), W['structured']),
                'vol': codec.same_bits(W['vol'], ideal) if W['vol'].shape == ideal.shape else False,
+               'cli_same': cli_same if c.get('cli') else None,
                'hdr': W['hdr'] == exp_hdr, 'tf': W['tf'] == exp_tf, 'stored': W['stored'], 'w_il': W['il'], 'w_xl': W['xl'],
                'first_bad_hdr': next(((i, [keys[j] for j in range(len(keys)) if x[j] != y[j]][:5]) for i, (x, y) in enumerate(zip(exp_hdr, W['hdr'])) if x != y), None)
                if len(exp_hdr) == len(W['hdr']) else 'count'}
@@ -143,8 +153,9 @@ def plan(run):
             wins = [w for i, w in enumerate(wins) if i in keep] + [w for i, w in enumerate(zero) if i in z] + [(0, ni, 0, nx), (0, 1, 0, 1), (ni - 1, ni, nx - 1, nx)]
             wins = sorted(set(wins))
         for j, w in enumerate(wins):
-            cases.append({'src': si, 'w': list(w), 'iops': bool(j % 2), 'mode': ('heuristic', 'thorough', 'exhaustive', 'strip')[j % 4] if j % 3 else 'thorough',
-                          'rate': (16, 8, 32)[j % 3], 'bs': None if j % 3 < 2 else (8, 8, 16)})
+            cli = j % 7 == 3        # through the command line interface (no detection option there: the default)
+            cases.append({'src': si, 'w': list(w), 'iops': bool(j % 2), 'mode': 'heuristic' if cli else (('heuristic', 'thorough', 'exhaustive', 'strip')[j % 4] if j % 3 else 'thorough'),
+                          'rate': (16, 8, 32)[j % 3], 'bs': None if j % 3 < 2 else (8, 8, 16), 'cli': cli})
     return cases
 
 
@@ -160,6 +171,8 @@ def judge(run, c, r, ev):
     run.check(r['ntr'][0] == r['ntr'][1] and r['ntr'][2], 'C11.tracecount', case, r['ntr'], (b - a) * (dd - cc))
     run.check(r['hdr'], 'C11.trace-headers', case, {'first_bad_trace': r['first_bad_hdr'], 'stored': r['stored']}, 'headers of the windowed source traces')
     run.check(r['tf'], 'C11.tracefield-arrays', case, {'stored': r['stored']}, 'arrays of the windowed source traces')
+    if r.get('cli_same') is not None:
+        run.check(r['cli_same'], 'C11.cli-equals-api', case, None, 'byte-identical files')
     for kk, vv in r.get('same_as_sub', {}).items():
         run.check(vv, f'C11.same-as-subcube-file[{kk}]', case, None, 'identical to converting a SEG-Y of the windowed traces')
     # model vs code: the source ordinal the reader finds behind every cell of a stored array
